@@ -61,6 +61,7 @@ type Engine struct {
 	pc         []*Term
 	byVar      map[int32][]int
 	defs       map[int32]*Term
+	defCache   map[*Term]Sc
 	dec        []uint64
 	prefix     []uint64
 	alts       [][]uint64
@@ -162,6 +163,7 @@ func (e *Engine) resetPath(prefix []uint64) {
 	e.pc = e.pc[:0]
 	e.byVar = map[int32][]int{}
 	e.defs = map[int32]*Term{}
+	e.defCache = map[*Term]Sc{}
 	e.dec = e.dec[:0]
 	e.prefix = prefix
 	e.alts = nil
